@@ -266,3 +266,141 @@ func SetDial(conn any) {}
 
 // StubResult reports what an engine stub last returned (engine only; -1 natively).
 func StubResult(name string) int { return -1 }
+
+// ---------------------------------------------------------------------------
+// Independent NBT grammar reference (shared by the nbt and dynbt harnesses).
+
+const (
+	NBTComplete = iota // a complete value ends at `end`
+	NBTNeedMore        // the input is a strict prefix of some value
+	NBTBadLen          // a negative length field was met
+	NBTBadTag          // an unknown tag id was met
+	NBTOther           // anything else (e.g. non-empty list of End, depth bound): nothing is claimed
+)
+
+// RefNBT parses the payload of a value of type `tag` starting at b[pos].
+func RefNBT(b []byte, pos int, tag byte, depth int) (status, end int) {
+	need := func(n int) bool { return pos+n <= len(b) }
+	i16 := func(p int) int { return int(int16(uint16(b[p])<<8 | uint16(b[p+1]))) }
+	i32 := func(p int) int {
+		return int(int32(uint32(b[p])<<24 | uint32(b[p+1])<<16 | uint32(b[p+2])<<8 | uint32(b[p+3])))
+	}
+	if depth > 4 {
+		return NBTOther, pos
+	}
+	fixed := 0
+	switch tag {
+	case 1:
+		fixed = 1
+	case 2:
+		fixed = 2
+	case 3, 5:
+		fixed = 4
+	case 4, 6:
+		fixed = 8
+	}
+	if fixed > 0 {
+		if !need(fixed) {
+			return NBTNeedMore, pos
+		}
+		return NBTComplete, pos + fixed
+	}
+	switch tag {
+	case 7, 11, 12:
+		if !need(4) {
+			return NBTNeedMore, pos
+		}
+		n := i32(pos)
+		if n < 0 {
+			return NBTBadLen, pos
+		}
+		w := 1
+		if tag == 11 {
+			w = 4
+		} else if tag == 12 {
+			w = 8
+		}
+		pos += 4
+		if n > len(b) || pos+n*w > len(b) {
+			return NBTNeedMore, pos
+		}
+		return NBTComplete, pos + n*w
+	case 8:
+		if !need(2) {
+			return NBTNeedMore, pos
+		}
+		n := i16(pos)
+		if n < 0 {
+			return NBTBadLen, pos
+		}
+		pos += 2
+		if pos+n > len(b) {
+			return NBTNeedMore, pos
+		}
+		return NBTComplete, pos + n
+	case 9:
+		if !need(5) {
+			return NBTNeedMore, pos
+		}
+		et := b[pos]
+		n := i32(pos + 1)
+		pos += 5
+		if n < 0 {
+			return NBTBadLen, pos
+		}
+		if n == 0 {
+			return NBTComplete, pos
+		}
+		if et == 0 {
+			return NBTOther, pos
+		}
+		if et > 12 {
+			return NBTBadTag, pos
+		}
+		for i := 0; i < n; i++ {
+			if pos >= len(b) { // every element takes at least one byte
+				return NBTNeedMore, pos
+			}
+			st, e := RefNBT(b, pos, et, depth+1)
+			if st != NBTComplete {
+				return st, e
+			}
+			pos = e
+		}
+		return NBTComplete, pos
+	case 10:
+		for {
+			if !need(1) {
+				return NBTNeedMore, pos
+			}
+			t := b[pos]
+			pos++
+			if t == 0 {
+				return NBTComplete, pos
+			}
+			if t > 12 {
+				return NBTBadTag, pos
+			}
+			if !need(2) {
+				return NBTNeedMore, pos
+			}
+			n := i16(pos)
+			if n < 0 {
+				return NBTBadLen, pos
+			}
+			pos += 2
+			if pos+n > len(b) {
+				return NBTNeedMore, pos
+			}
+			pos += n
+			st, e := RefNBT(b, pos, t, depth+1)
+			if st != NBTComplete {
+				return st, e
+			}
+			pos = e
+		}
+	case 0:
+		return NBTOther, pos
+	}
+	return NBTBadTag, pos
+}
